@@ -335,6 +335,6 @@ Local Close Scope string_scope.
 (* the premise of adupdates_opt_refines_ref is satisfiable: two operators
    sharing one temporary *)
 Example adupdates_premise_satisfiable :
-  let o := mk_adop (fun v : list R => v) (fun v => v) (fun v => v) 1 1 0 in
+  let o := mk_adop (fun v : list R => v) (fun v => v) (fun v => v) 1 None 1 0 in
   Forall (fun o => (ad_key o < length [[0]])%nat) [o; o].
 Proof. cbn. repeat constructor. Qed.
